@@ -263,43 +263,55 @@ def drain (a : Nat) : Int → Nat → List Int → List Tr × Int × Nat × List
       (⟨a, b, l⟩ :: t, add', b', r)
     else ([], add, b, l :: rest)
 
-/-- The leftover loop (fulfillment.go:584-634).  `nxt` = Go's `a + 1` before the wrap test,
-`fp` = `firstPass`, `lo` = `leftoverPriceAmt`.  `fuel` only makes the recursion structural;
+/-- State of the leftover loop (fulfillment.go:581-584): `nxt` = Go's `a + 1` (before the wrap test),
+`fp` = `firstPass`, `lo` = `leftoverPriceAmt`, `b` and the `PriceLeftAmt` of `bidOFs[b:]`. -/
+structure LoopSt where
+  nxt : Nat
+  fp : Bool
+  lo : Int
+  b : Nat
+  bids : List Int
+  deriving Repr, DecidableEq
+
+/-- One round of the leftover loop body (fulfillment.go:585-633), entered with `lo ≠ 0`:
+the distributions it records and the next state. -/
+def leftoverStep (totalLeftover totalAssets : Int) (askFilled : List Int) (s : LoopSt) :
+    Except Err (List Tr × LoopSt) :=
+  -- a++; if a == len(askOFs) { a = 0; firstPass = false }
+  let a := if s.nxt = askFilled.length then 0 else s.nxt
+  let fp := if s.nxt = askFilled.length then false else s.fp
+  if s.bids.isEmpty then .error .panicNoBids else
+  match mul totalLeftover (askFilled.getD a 0) with
+  | .error e => .error e
+  | .ok prod =>
+    if totalAssets = 0 then .error .divzero else
+    if prod.tdiv totalAssets = 0 ∧ fp then .ok ([], ⟨a + 1, fp, s.lo, s.b, s.bids⟩)   -- `continue`
+    else
+      let add1 := if prod.tdiv totalAssets = 0 then 1 else prod.tdiv totalAssets
+      let add := if add1 ≤ s.lo then add1 else s.lo
+      match drain a add s.b s.bids with
+      | (t1, add', b', []) =>
+        -- `b == len(bidOFs)`: nothing more to take; the next round panics unless `lo` reached 0
+        .ok (t1, ⟨a + 1, fp, s.lo - (add - add'), b', []⟩)
+      | (t1, add', b', l :: rest) =>
+        if add' ≠ 0 then
+          .ok (t1 ++ [⟨a, b', add'⟩],
+               ⟨a + 1, fp, s.lo - add, if l - add' = 0 then b' + 1 else b',
+                if l - add' = 0 then rest else (l - add') :: rest⟩)
+        else .ok (t1, ⟨a + 1, fp, s.lo - add, b', l :: rest⟩)
+
+/-- The leftover loop `for !leftoverPriceAmt.IsZero()`.  `fuel` only makes the recursion structural;
 `allocatePrice` passes a bound that `PvProofs.C01.allocatePrice_fuel_suffices` proves sufficient. -/
-def leftoverLoop (totalLeftover totalAssets : Int) (askFilled : List Int) :
-    Nat → Nat → Bool → Int → Nat → List Int → Except Err (List Tr)
-  | 0, _, _, lo, _, _ => if lo = 0 then .ok [] else .error .fuel
-  | fuel + 1, nxt, fp, lo, b, bids =>
-    if lo = 0 then .ok [] else
-    let a := if nxt = askFilled.length then 0 else nxt
-    let fp := if nxt = askFilled.length then false else fp
-    if bids.isEmpty then .error .panicNoBids else
-    match mul totalLeftover (askFilled.getD a 0) with
+def leftoverLoop (totalLeftover totalAssets : Int) (askFilled : List Int) : Nat → LoopSt → Except Err (List Tr)
+  | 0, s => if s.lo = 0 then .ok [] else .error .fuel
+  | fuel + 1, s =>
+    if s.lo = 0 then .ok [] else
+    match leftoverStep totalLeftover totalAssets askFilled s with
     | .error e => .error e
-    | .ok prod =>
-      if totalAssets = 0 then .error .divzero else
-      let add0 := prod.tdiv totalAssets
-      if add0 = 0 ∧ fp then leftoverLoop totalLeftover totalAssets askFilled fuel (a + 1) fp lo b bids
-      else
-        let add1 := if add0 = 0 then 1 else add0
-        let add := if add1 ≤ lo then add1 else lo
-        let (t1, add', b', bids') := drain a add b bids
-        match bids' with
-        | [] => -- `b == len(bidOFs)`: nothing more to take; the next round panics unless done
-          match leftoverLoop totalLeftover totalAssets askFilled fuel (a + 1) fp (lo - (add - add')) b' [] with
-          | .error e => .error e
-          | .ok t => .ok (t1 ++ t)
-        | l :: rest =>
-          if add' ≠ 0 then
-            let bids'' := if l - add' = 0 then rest else (l - add') :: rest
-            let b'' := if l - add' = 0 then b' + 1 else b'
-            match leftoverLoop totalLeftover totalAssets askFilled fuel (a + 1) fp (lo - add) b'' bids'' with
-            | .error e => .error e
-            | .ok t => .ok (t1 ++ ⟨a, b', add'⟩ :: t)
-          else
-            match leftoverLoop totalLeftover totalAssets askFilled fuel (a + 1) fp (lo - add) b' (l :: rest) with
-            | .error e => .error e
-            | .ok t => .ok (t1 ++ t)
+    | .ok (t, s') =>
+      match leftoverLoop totalLeftover totalAssets askFilled fuel s' with
+      | .error e => .error e
+      | .ok t' => .ok (t ++ t')
 
 /-- `allocatePrice(askOFs, bidOFs)`: `askPrices`/`bidPrices` are the `PriceLeftAmt`s (= order prices
 after `splitPartial`), `askFilled` the asks' `AssetsFilledAmt`. -/
@@ -315,7 +327,7 @@ def allocatePrice (askPrices bidPrices askFilled : List Int) : Except Err (List 
     let totalLeftover := totalBid - totalFirst
     let totalAssets := askFilled.sum
     match leftoverLoop totalLeftover totalAssets askFilled
-        (askFilled.length + totalLeftover.toNat + 2) 0 true totalLeftover b bids with
+        (askFilled.length + totalLeftover.toNat + 2) ⟨0, true, totalLeftover, b, bids⟩ with
     | .error e => .error e
     | .ok t2 => .ok (t1 ++ t2)
 
@@ -402,17 +414,17 @@ def indexDists (denom : Denom) (ds : List (Addr × Int)) : Indexed :=
 /-- `getAssetTransfer` of an ask (fulfillment.go:804): the filled amount and every distribution
 must be positive (the `sumDists == assetsFilled` test compares a sum with itself here). -/
 def getAssetTransfer (trA : List Tr) (bids : List Order) (i : Nat) (o : Order) : Except Err Transfer :=
-  let ds := distsOfAsk trA bids i
   if filledA trA i ≤ 0 then .error .xferAssets
-  else if ds.any (fun d => d.2 ≤ 0) then .error .xferAssets
-  else .ok { inputs := [(o.owner, [(o.assetsDenom, filledA trA i)])], outputs := indexDists o.assetsDenom ds }
+  else if (distsOfAsk trA bids i).any (fun d => d.2 ≤ 0) then .error .xferAssets
+  else .ok { inputs := [(o.owner, [(o.assetsDenom, filledA trA i)])],
+             outputs := indexDists o.assetsDenom (distsOfAsk trA bids i) }
 
 /-- `getPriceTransfer` of a bid (fulfillment.go:845). -/
 def getPriceTransfer (trP : List Tr) (asks : List Order) (j : Nat) (o : Order) : Except Err Transfer :=
-  let ds := distsOfBid trP asks j
   if filledB trP j ≤ 0 then .error .xferPrice
-  else if ds.any (fun d => d.2 ≤ 0) then .error .xferPrice
-  else .ok { inputs := [(o.owner, [(o.priceDenom, filledB trP j)])], outputs := indexDists o.priceDenom ds }
+  else if (distsOfBid trP asks j).any (fun d => d.2 ≤ 0) then .error .xferPrice
+  else .ok { inputs := [(o.owner, [(o.priceDenom, filledB trP j)])],
+             outputs := indexDists o.priceDenom (distsOfBid trP asks j) }
 
 /-- `record` of `buildTransfers` for one side: transfer, then fees (negative fee = error). -/
 def recordSide (getter : Nat → Order → Except Err Transfer) :
@@ -534,14 +546,20 @@ def Indexed.total (idx : Indexed) : Coins := idx.flatMap (·.2)
 `InputOutputCoinsProv`). -/
 def Transfer.ledger (t : Transfer) : Ledger := t.inputs.debits ++ t.outputs.credits
 
-/-- `CalculateExchangeSplit(feeAmt)`: per denom `⌈amt·split/10000⌉` (`Fees.exchangeSplitCoin`),
-over the denoms of the canonical (merged) total. -/
+/-- the distinct denoms of a coin list, in order of first appearance -/
+def dedupDenoms : List Denom → List Denom
+  | [] => []
+  | d :: rest => d :: (dedupDenoms rest).filter (· ≠ d)
+
+/-- `CalculateExchangeSplit(feeAmt)` (keeper.go:236): `feeAmt` is a merged `sdk.Coins`, so each denom is
+seen once with its total; per denom `⌈amt·split/10000⌉` (`Fees.exchangeSplitCoin`, zero amounts and
+zero splits are skipped). -/
 def exchangeSplit (split : Denom → Nat) (total : Coins) : Except Err Coins :=
-  (Coins.canon total).foldr (fun (d, x) acc =>
+  (dedupDenoms (Coins.denoms total)).foldr (fun d acc =>
     match acc with
     | .error e => .error e
     | .ok cs =>
-      match Fees.exchangeSplitCoin x (split d) with
+      match Fees.exchangeSplitCoin (Coins.amountOf total d) (split d) with
       | .error _ => .error .overflow
       | .ok none => .ok cs
       | .ok (some y) => .ok ((d, y) :: cs)) (.ok [])
